@@ -255,7 +255,22 @@ type c19Accept struct {
 	kind string
 }
 
+// a malformed entry next to (or on) a type the helper supports: still a malformed header
+var c19MalformedWithSupported = [][]string{
+	{"application/json; q"},
+	{"application/json;=1"},
+	{"application/x-ndjson; q=\"0.5"},
+	{"application/json; q=1; q=0.5"},
+	{"text/ html, application/json"},
+	{"application/json", "*/*; q"},
+	{"application/x-ndjson, application/json; charset"},
+	{"application/json, text/html; =x"},
+}
+
 func c19GenAccept(r *rand.Rand) c19Accept {
+	if r.Intn(12) == 0 {
+		return c19Accept{c19MalformedWithSupported[r.Intn(len(c19MalformedWithSupported))], "reject", "malformed-entry-with-a-supported-type"}
+	}
 	switch r.Intn(14) {
 	case 0:
 		return c19Accept{nil, "json", "none"}
